@@ -94,9 +94,21 @@ func runLedgerMon(pid string, seed uint64, n int, out, stats string) {
 		mon = append(mon, s01...)
 	}
 	dist["order-scenario"] = 1 + n/3
+	// directed supply-cap scenarios
+	var k01, k02 []MonitorFailure
+	cb, ct := capScenarios(seed, 1+n/4, &k01, &k02)
+	blocks += cb
+	txs += ct
+	nontriv += 1 + n/4
+	dist["supply-cap-scenario"] = 1 + n/4
+	if pid == "C02" {
+		mon = append(mon, k02...)
+	} else if pid != "C06" {
+		mon = append(mon, k01...)
+	}
 	c.Close()
-	writeStats(stats, &Stats{Property: pid, Seed: seed, Cases: n + 1 + n/3, Ops: txs, NonTrivial: nontriv,
-		Rule: "directed order scenarios (committed orders partially filled and then cancelled / filled again / expiring in the same block, restarts) + seeded history of 20-80 blocks (0-6 txs per block of 33 kinds incl. a malformed stream, absences, byzantine evidence, testnet periods, stake period 12) executed on the real node; the monitor recomputes every sum of the property from the node's export after every block; non-trivial = at least one accepted state-changing tx; histories are distinct by seed",
+	writeStats(stats, &Stats{Property: pid, Seed: seed, Cases: n + 2 + n/3 + n/4, Ops: txs, NonTrivial: nontriv,
+		Rule: "directed supply-cap scenarios (bancor coins and tokens a few units below their maximum supply: purchases, conversions and mints of headroom-1, headroom, headroom+1 and multiples) + directed order scenarios (committed orders partially filled and then cancelled / filled again / expiring in the same block, restarts) + seeded history of 20-80 blocks (0-6 txs per block of 33 kinds incl. a malformed stream, absences, byzantine evidence, testnet periods, stake period 12) executed on the real node; the monitor recomputes every sum of the property from the node's export after every block; non-trivial = at least one accepted state-changing tx; histories are distinct by seed",
 		Dist: dist, Samples: samples, Monitor: mon,
 		Extra: map[string]interface{}{"blocks": blocks, "txs": txs, "accepted_txs": okTxs, "codes": codes, "check_deliver_agreements": agree, "scenario_trades_filling_orders": scenFills, "scenario_cancels_in_the_block_of_a_fill": scenCancelsAfterFill}})
 }
@@ -305,6 +317,78 @@ func orderScenarios(seed uint64, count int, c01, c02, c06 *[]MonitorFailure, che
 			}
 			n2.Cleanup()
 		}
+	}
+	return
+}
+
+
+// capScenarios: coins whose volume is just below the maximum supply; purchases (BuyCoin with base coin and
+// with another custom coin, SellCoin / SellAllCoin into the coin) and mints of amounts around the remaining
+// room.  Every block is checked by the conservation / non-negativity / volume <= max supply monitors.
+func capScenarios(seed uint64, count int, c01, c02 *[]MonitorFailure) (blocks, txs int) {
+	for i := 0; i < count; i++ {
+		s := seed*9091 + uint64(i)
+		r := NewRng(s)
+		where := fmt.Sprintf("supply-cap scenario %d (seed %d)", i, s)
+		n := newNode(&GenesisSpec{NAccounts: 5, Balance: pip(10000000), NVals: 2, ValOwnersFrom: 3})
+		a, b := n.Accts[0], n.Accts[1]
+		var prev *Holdings
+		var prevEm *big.Int
+		step := func(txs_ ...[]byte) *BlockResult {
+			br := n.Block(txs_, nil)
+			blocks++
+			txs += len(txs_)
+			if br.Panic != "" {
+				*c01 = append(*c01, MonitorFailure{What: "panic: " + br.Panic, Key: "c07-panic", Replay: where})
+				return br
+			}
+			conservationStep(n, &prev, &prevEm, c01, c02, where)
+			return br
+		}
+		step()
+		room := new(big.Int).Add(r.BigBelow(pip(int64(1+r.Intn(300)))), Z(int64(1+r.Intn(1000))))
+		amt := pip(int64(100000 + r.Intn(2000000)))
+		crr := uint32(10 + r.Intn(91))
+		// cheap coin: price = reserve / (amount * crr/100), far below 1 base coin
+		step(n.MkTx(a, transaction.TypeCreateCoin, transaction.CreateCoinData{Name: "cap", Symbol: types.StrToCoinSymbol("CAPCOIN"), InitialAmount: amt,
+			InitialReserve: pip(int64(10000 + r.Intn(20000))), ConstantReserveRatio: crr, MaxSupply: new(big.Int).Add(amt, room)}, 0, 0, 1, nil))
+		capc := types.CoinID(n.App.CurrentState().App().GetCoinsCount())
+		step(n.MkTx(a, transaction.TypeCreateCoin, transaction.CreateCoinData{Name: "other", Symbol: types.StrToCoinSymbol("OTHERCOIN"), InitialAmount: pip(1000000),
+			InitialReserve: pip(50000), ConstantReserveRatio: uint32(10 + r.Intn(91)), MaxSupply: pip(100000000)}, 0, 0, 1, nil))
+		other := types.CoinID(n.App.CurrentState().App().GetCoinsCount())
+		step(n.MkTx(a, transaction.TypeSend, transaction.SendData{Coin: other, To: b.Addr, Value: pip(100000)}, 0, 0, 1, nil))
+		amounts := func() []*big.Int {
+			cn := n.App.CurrentState().Coins().GetCoin(capc)
+			left := new(big.Int).Sub(cn.MaxSupply(), cn.Volume())
+			return []*big.Int{new(big.Int).Add(left, Z(1)), new(big.Int).Mul(left, Z(2)), new(big.Int).Mul(left, Z(int64(3+r.Intn(100)))), left, new(big.Int).Sub(left, Z(1))}
+		}
+		for _, v := range amounts() {
+			if v.Sign() < 1 {
+				continue
+			}
+			step(n.MkTx(b, transaction.TypeBuyCoin, transaction.BuyCoinData{CoinToBuy: capc, ValueToBuy: v, CoinToSell: 0, MaximumValueToSell: pip(1000000)}, 0, 0, 1, nil))
+		}
+		step(n.MkTx(a, transaction.TypeSellCoin, transaction.SellCoinData{CoinToSell: capc, ValueToSell: room, CoinToBuy: 0, MinimumValueToBuy: Z(0)}, 0, 0, 1, nil))
+		for _, v := range amounts() {
+			if v.Sign() < 1 {
+				continue
+			}
+			step(n.MkTx(b, transaction.TypeBuyCoin, transaction.BuyCoinData{CoinToBuy: capc, ValueToBuy: v, CoinToSell: other, MaximumValueToSell: pip(100000)}, 0, 0, 1, nil))
+		}
+		step(n.MkTx(a, transaction.TypeSellCoin, transaction.SellCoinData{CoinToSell: capc, ValueToSell: room, CoinToBuy: 0, MinimumValueToBuy: Z(0)}, 0, 0, 1, nil))
+		// selling into the coin: the amount bought is computed, it must stop at the cap too
+		step(n.MkTx(b, transaction.TypeSellCoin, transaction.SellCoinData{CoinToSell: 0, ValueToSell: pip(int64(1 + r.Intn(50))), CoinToBuy: capc, MinimumValueToBuy: Z(0)}, 0, 0, 1, nil))
+		step(n.MkTx(b, transaction.TypeSellCoin, transaction.SellCoinData{CoinToSell: other, ValueToSell: pip(int64(1 + r.Intn(500))), CoinToBuy: capc, MinimumValueToBuy: Z(0)}, 0, 0, 1, nil))
+		// a token at its cap
+		tamt := pip(int64(1000 + r.Intn(100000)))
+		troom := Z(int64(1 + r.Intn(1000)))
+		step(n.MkTx(a, transaction.TypeCreateToken, transaction.CreateTokenData{Name: "t", Symbol: types.StrToCoinSymbol("CAPTOKEN"), InitialAmount: tamt, MaxSupply: new(big.Int).Add(tamt, troom), Mintable: true, Burnable: true}, 0, 0, 1, nil))
+		tok := types.CoinID(n.App.CurrentState().App().GetCoinsCount())
+		for _, v := range []*big.Int{new(big.Int).Add(troom, Z(1)), new(big.Int).Mul(troom, Z(2)), troom, Z(1)} {
+			step(n.MkTx(a, transaction.TypeMintToken, transaction.MintTokenData{Coin: tok, Value: v}, 0, 0, 1, nil))
+		}
+		step()
+		n.Cleanup()
 	}
 	return
 }
